@@ -8,6 +8,7 @@ import Driver.C12
 import Driver.C14
 import Driver.THash
 import Driver.PHash
+import Driver.TH
 /-! `mlsmodel <mode>`: reads queries from stdin, prints one model answer per line. -/
 
 def splitWs (line : String) : List String :=
@@ -33,10 +34,13 @@ def main (args : List String) : IO UInt32 := do
     loopS stdin stdout (fun (st : Driver.TreeD.St) ws =>
       if ws.head? == some "thashspec" then (st, Driver.THash.handle ws)
       else if ws.head? == some "phvalid" || ws.head? == some "phupd" then (st, Driver.PHash.handle ws)
+      -- transcript-hash / membership-tag rows on real message bytes (stateless)
+      else if ws.head? == some "th" || ws.head? == some "mtag" then (st, Driver.TH.handle ws)
       else Driver.TreeD.step st ws) {}; return 0
   | ["c12"] => loopS stdin stdout (fun (_ : Unit) ws => ((), Driver.C12.handle ws)) (); return 0
   | ["c14"] => loopS stdin stdout (fun (_ : Unit) ws => ((), Driver.C14.handle ws)) (); return 0
   | ["phash"] => loopS stdin stdout (fun (_ : Unit) ws => ((), Driver.PHash.handle ws)) (); return 0
+  | ["th"] => loopS stdin stdout (fun (_ : Unit) ws => ((), Driver.TH.handle ws)) (); return 0
   | ["thash"] => loopS stdin stdout (fun (_ : Unit) ws => ((), Driver.THash.handle ws)) (); return 0
   | ["c13"] => loopS stdin stdout Driver.C13.step {}; return 0
   | _ => IO.eprintln "usage: mlsmodel <mode>"; return 2
